@@ -83,6 +83,11 @@ def name_patterns(tier='quick', alpha='ab.'):
         for neg in (False, True):
             b = ('br', neg, items)
             pats += [(b,), (b, star), (L('a'), b), (b, b)]
+    # escaped members of a bracket denote themselves (file-name mode; in path mode an escaped separator ends the bracket)
+    for items in ((('ch', 'a'), ('ech', '/')), (('ech', '/'), ('ch', 'a')), (('ech', ']'), ('ch', 'b')), (('ch', 'a'), ('ech', '-'), ('ch', 'c')), (('ech', 'a'), ('ech', '\\'))):
+        for neg in (False, True):
+            b = ('br', neg, items)
+            pats += [(b,), (b, star), (L('a'), b, L('b'))]
     for k in '@?*+':
         for alts in (((L('a'),), (star,)), ((L('a'),), (q,)), ((star,), (L('.'), L('a'))), ((L('b'),), (('br', False, (('ch', 'a'), ('ch', '.'))),))):
             pats += [(L('a'), ('ext', k, alts)), (L('.'), ('ext', k, alts)), (L('a'), ('ext', k, alts), L('b'))]
